@@ -68,7 +68,14 @@ def run_sym(
         for label, claim in cl:
             if isinstance(claim, bool):
                 claim = z3.BoolVal(claim)
-            st, model = prove(claim, pc, logic=logic, timeout_ms=timeout_ms)
+            st, model = None, None
+            if z3.is_implies(claim):
+                # cheap pre-filter: an implication whose antecedent contradicts the path condition holds trivially
+                r, _ = satisfiable(list(pc) + [claim.arg(0)], logic=None, timeout_ms=2000)
+                if r == "unsat":
+                    st = "proved"
+            if st is None:
+                st, model = prove(claim, pc, logic=logic, timeout_ms=timeout_ms)
             stats[st] += 1
             check.obligation(group, st)
             if first and sample is not None:
@@ -88,7 +95,10 @@ def run_sym(
                     check.nonreproducing(f"{group}: counterexample for '{label}' (case {case_id}) did not reproduce natively: {str(model)[:300]}")
                 else:
                     key, what, payload = rep
-                    check.violation(key, what, payload)
+                    # convention: a replay message starts with a stable symptom tag "tag: details"; the finding key
+                    # is "<case class>::<tag>" so that a different symptom in the same configuration is a new finding
+                    tag = what.split(":", 1)[0].strip() if ":" in what else what[:40]
+                    check.violation(f"{key}::{tag}", what, payload)
     if pm.truncated:
         check.inconclusive_note(f"{group}: path budget exhausted after {pm.paths} paths (case {case_id})")
     if stats["paths"] == 0 or stats["vacuous"] == stats["paths"]:
